@@ -32,7 +32,7 @@ static void helperToXmlAddDomElement(QXmlStreamWriter *stream, const QDomElement
     /* attributes */
     QString xmlns = element.namespaceURI();
     if (!xmlns.isEmpty() && !omitNamespaces.contains(xmlns)) {
-        stream->writeDefaultNamespace(xmlns);
+        stream->writeAttribute(QStringLiteral("xmlns"), xmlns);
     }
     QDomNamedNodeMap attrs = element.attributes();
     for (int i = 0; i < attrs.size(); i++) {
